@@ -646,6 +646,74 @@ def _replay_cooler_region(method):
     return run
 
 
+def _replay_cooler_fetch(kind):
+    """the _fetch closures of Cooler.bins()/pixels()/matrix() on a real cooler built from the counter-model (one
+    diagonal pixel per bin, so pixel row k belongs to bin k); expectations recomputed from the file's own bin table"""
+    def run(inputs, ghost=None):
+        import shutil
+        import cooler
+        g = {k: conv(v) for k, v in (ghost or {}).items()}
+        reg = list(conv(inputs["region"]))
+        reg2 = conv(inputs.get("region2")) if inputs.get("region2") is not None else None
+        out = {"inputs_used": {"region": repr(reg), "region2": repr(reg2)}}
+        if g.get("known"):
+            built = _cooler_from_model(g)
+        else:
+            built = _cooler_from_model({"nchrom": 2, "c": 0, "off": [0, 2, 4], "start": [0, 5, 0, 5], "end": [5, 9, 5, 8],
+                                        "clen": [9, 8], "binsize": None})
+            if built is not None:
+                built = built[:3] + ("no_such_chromosome",)
+        if built is None:
+            out.update(violations=[], violates_contract=False, note="model does not describe a buildable table; not judged")
+            return out
+        d, p, bins, name = built
+        clr = cooler.Cooler(p)
+        unknown = name not in clr.chromsizes
+        L_ = 0 if unknown else int(clr.chromsizes[name])
+
+        def resolve(r):
+            s = 0 if r[1] is None else int(r[1])
+            e = L_ if r[2] is None else int(r[2])
+            bad = unknown or e < s or s < 0 or e > L_
+            idx = [k for k in range(len(bins)) if bins["chrom"][k] == name]
+            return s, e, bad, [k for k in idx if bins["start"][k] < e and bins["end"][k] > s]
+        region = (name, reg[1], reg[2])
+        region2 = None if reg2 is None else (name, list(reg2)[1], list(reg2)[2])
+        s, e, bad, ov = resolve(region)
+        viol, res, raised = [], None, None
+        try:
+            if kind == "bins":
+                res = clr.bins()._fetch(region)
+            elif kind == "pixels":
+                res = clr.pixels()._fetch(region)
+            else:
+                res = clr.matrix(balance=False)._fetch(region) if region2 is None else clr.matrix(balance=False)._fetch(region, region2)
+        except Exception as ex:
+            raised = ex
+        out["raised"] = None if raised is None else f"{type(raised).__name__}: {raised}"
+        out["returned"] = repr(res)
+        checks = [(region, s, e, bad, ov, 0)]
+        if kind == "matrix":
+            s2, e2, bad2, ov2 = resolve(region2 if region2 is not None else region)
+            checks.append((region2 if region2 is not None else region, s2, e2, bad2, ov2, 2))
+        if any(c[3] for c in checks):
+            if not isinstance(raised, ValueError):
+                viol.append(f"{kind}._fetch{region, region2} should be refused with ValueError, got {out['raised'] or res}")
+        elif raised is not None:
+            viol.append(f"{kind}._fetch{region, region2} raised {out['raised']}")
+        else:
+            for r, s_, e_, _, ov_, at in checks:
+                if s_ < e_ and list(range(int(res[at]), int(res[at + 1]))) != ov_:
+                    viol.append(f"{kind}._fetch{r} -> rows {tuple(int(x) for x in res[at:at + 2])}, overlapping bins (= their pixel rows) are {ov_}")
+        shutil.rmtree(d, ignore_errors=True)
+        out.update(violations=viol, violates_contract=bool(viol))
+        return out
+    return run
+
+
+CUSTOM["cooler.api:Cooler.bins._fetch"] = _replay_cooler_fetch("bins")
+CUSTOM["cooler.api:Cooler.pixels._fetch"] = _replay_cooler_fetch("pixels")
+CUSTOM["cooler.api:Cooler.matrix._fetch"] = _replay_cooler_fetch("matrix")
 CUSTOM["cooler.api:Cooler.extent"] = _replay_cooler_region("extent")
 CUSTOM["cooler.api:Cooler.offset"] = _replay_cooler_region("offset")
 
